@@ -53,8 +53,8 @@ func must(err error) {
 	}
 }
 
-// oldCase wraps a case of Model/C32.v into the harness's case type (Model/C32_Tmp.v: xcase).
-func oldCase(term string) string { return "(Old " + term + ")" }
+// oldCase wraps a case of Model/C32.v into the harness's case type (Model/C32_Hash.v: hxcase over Model/C32_Tmp.v: xcase).
+func oldCase(term string) string { return "(X (Old " + term + "))" }
 
 // ---- the harness never dies silently ----------------------------------------------------------
 // Every stage that can panic (a helper that does not behave, a reference build that fails, cp, strace ...)
@@ -2273,7 +2273,7 @@ func partT(c *lib.Ctx, base string) func() {
 			for _, kv := range t.Srcs {
 				srcs = append(srcs, lib.Pair(lib.Str(kv[0]), lib.Str(kv[1])))
 			}
-			term := "(Tmp " + lib.App("CTmp", lib.List(srcs), t.coqCmd(), lib.StrList(t.Outs), lib.List(ks), obsTmp.coq(), obsOut) + ")"
+			term := "(X (Tmp " + lib.App("CTmp", lib.List(srcs), t.coqCmd(), lib.StrList(t.Outs), lib.List(ks), obsTmp.coq(), obsOut) + "))"
 			leftovers := obsTmp.State == "dir" && len(obsTmp.Entries) > 0
 			c.Case(term, js, fmt.Sprint("tmp", t.Shape, t.Name, j.History), anyKill && leftovers)
 			c.Hist("workdir-shape", t.Shape)
@@ -2368,12 +2368,13 @@ func main() {
 		return
 	}
 	lib.Main("C32", func(c *lib.Ctx) {
-		c.Model("From PlzV Require Import Model.C32 Model.C32_Tmp.", "C32_Tmp.xcase", "C32_Tmp.xcheck")
+		c.Model("From PlzV Require Import Model.C32 Model.C32_Tmp Model.C32_Hash.", "C32_Hash.hxcase", "C32_Hash.hxcheck")
 		c.Rule("(W) fs.WriteFile in a helper process killed by strace on entry to each of its mutating syscalls (directory present/absent, destination present/absent, 0-3 chunks, modes); " +
 			"(P) generated repositories (3-6 targets: 1-3 file outputs, directory outputs, one output_dirs target, text_file, dependencies between them) built by the real plz, killed by strace on entry to a chosen syscall on a chosen plz-out path, " +
 			"at the N-th call of a syscall class, or by SIGKILL after a random delay - during the first build, the rebuild after a content edit, a --rebuild of the up-to-date tree, and twice in a row - followed by a normal build compared with a clean build of the same tree; " +
 			"per target and kill the state found on disk is checked to be a prefix state of the model and the model's decision to be what plz did; the syscall trace of every uninterrupted build is compared with the model's step list. " +
 			"(T) one genrule whose command is a program of the model's language of leftover-sensitive shell commands (>> append to a scratch file then copy to the output, >> to the output, mkdir without -p, [ -e x ] || generate, stamp files, a robust control, random programs) with sync points between its simple commands: plz AND the running command are SIGKILLed while the command waits at a chosen sync point, once or several times in a row, the work directory plz-out/tmp/<target>._build is read and compared with the model's, then a normal build runs and is compared with a clean build and with the model's prediction. " +
+			"(H) one genrule with pinned `hashes` (one output / two outputs, one or several pinned hashes of sha1 / sha256 length, random payloads) whose outputs do NOT match them, a dependent target, and controls whose outputs do match: the real plz is killed by strace on entry to the metadata rename, the output rename, the 1st-3rd lsetxattr on an output (path-hash memos of OutputHash and of checkRuleHashes' hashers, the record), the lsetxattr on the metadata file and the unlinkat of an output (RemoveOutputs after the failed verification), once, twice in a row and after a completed failed build; the next build and the one after it must end as the clean build does (`Bad output hash`, no outputs - never exit 0 with the unverified payload); an uninterrupted build under strace must write no record for a target whose verification fails; the state found after the kill is compared with the prefix states of the model's step list and the model's decision / outcome with what plz did. " +
 			"distinct = distinct (repository, job, target) / WriteFile (configuration, step) / (command, kill history); non-trivial = the kill happened and changed the target's files (or: a WriteFile step > 0; or: the kill left files in the work directory)")
 		if _, err := exec.LookPath("strace"); err != nil {
 			panic("strace is required: " + err.Error())
@@ -2384,9 +2385,11 @@ func main() {
 		if d, failed := try(func() {
 			reportW := partW(c, base)
 			reportT := partT(c, base)
+			reportH := partH(c, base)
 			partP(c, base)
 			reportW()
 			reportT()
+			reportH()
 		}); failed {
 			stageMu.Lock()
 			stageFails = append(stageFails, stageFail{"main", d, nil})
